@@ -6,7 +6,7 @@
    [l] of client requests (REST or websocket, any clients) one after the other;
    [crun fl w clients (start st rd) sched] executes the requests [rd] that are in
    flight together under the interleaving [sched] of their atomic steps;
-   [spec w clients cr] is the reply the registered handler produces for the content
+   [fixed_reply w clients cr] is the reply the registered handler produces for the content
    of request [cr] alone; [all_fixed] is the code with the two proposed repairs,
    [pinned] the code as it is. *)
 From Coq Require Import List String ZArith Bool.
@@ -16,7 +16,7 @@ Local Open Scope string_scope.
 
 (* Sequential form: any history, from any state an earlier history left behind. *)
 Theorem c14_reply_is_function_of_request_seq : forall w clients l st,
-  wf_state w st -> snd (run all_fixed w clients st l) = map (spec w clients) l.
+  wf_state w st -> snd (run all_fixed w clients st l) = map (fixed_reply w clients) l.
 Proof. exact run_fixed_spec. Qed.
 Print Assumptions c14_reply_is_function_of_request_seq.
 
@@ -26,7 +26,7 @@ Theorem c14_reply_is_function_of_request : forall w clients st rd sched i t rep,
   wf_state w st ->
   nth_error (g_threads (crun all_fixed w clients (start st rd) sched)) i = Some t ->
   th_rep t = Some rep ->
-  exists cr, nth_error rd i = Some cr /\ rep = spec w clients cr.
+  exists cr, nth_error rd i = Some cr /\ rep = fixed_reply w clients cr.
 Proof. exact conc_fixed_spec. Qed.
 Print Assumptions c14_reply_is_function_of_request.
 
@@ -48,7 +48,7 @@ Print Assumptions c14_interleaving_example.
    the client that sent it: no attribution to, and no content from, anybody else. *)
 Theorem c14_spec_local : forall w clients clients' cr,
   nth_error clients (c_client cr) = nth_error clients' (c_client cr) ->
-  spec w clients cr = spec w clients' cr.
+  fixed_reply w clients cr = fixed_reply w clients' cr.
 Proof. exact spec_local. Qed.
 Print Assumptions c14_spec_local.
 
@@ -56,7 +56,7 @@ Print Assumptions c14_spec_local.
 Theorem c14_failure_contained : forall w clients l1 cr l2,
   snd (run all_fixed w clients (init_state w) (l1 ++ cr :: l2)%list) =
   (snd (run all_fixed w clients (init_state w) l1) ++
-   spec w clients cr :: snd (run all_fixed w clients (init_state w) l2))%list.
+   fixed_reply w clients cr :: snd (run all_fixed w clients (init_state w) l2))%list.
 Proof. exact failure_contained. Qed.
 Print Assumptions c14_failure_contained.
 
@@ -89,11 +89,11 @@ Print Assumptions c14_ws_success_only_from_handler.
 (* F17: POST {"S":"42"} then POST {} *)
 Theorem c14_rest_carryover_refuted :
   exists w clients l,
-    snd (run pinned w clients (init_state w) l) <> map (spec w clients) l /\
+    snd (run pinned w clients (init_state w) l) <> map (fixed_reply w clients) l /\
     l = [post (BObj [("S", JStr "42" None)]); post (BObj [])] /\
     snd (run pinned w clients (init_state w) l) =
       [ROk 10 (Msg "42" 0 false ""); ROk 10 (Msg "42" 0 false "")] /\
-    map (spec w clients) l = [ROk 10 (Msg "42" 0 false ""); RErr EHandler "empty"].
+    map (fixed_reply w clients) l = [ROk 10 (Msg "42" 0 false ""); RErr EHandler "empty"].
 Proof. exact rest_carryover_refuted. Qed.
 Print Assumptions c14_rest_carryover_refuted.
 
@@ -102,7 +102,7 @@ Theorem c14_rest_carryover_from_rejected_refuted :
   let l := [post (BObj [("S", JStr "zz" None); ("I", JStr "x" None)]); post (BObj [("I", JNum 1)])] in
   snd (run pinned demo_world [CKind true true] (init_state demo_world) l) =
     [RErr EDecode ""; ROk 10 (Msg "zz" 1 false "")] /\
-  map (spec demo_world [CKind true true]) l = [RErr EDecode ""; RErr EHandler "empty"].
+  map (fixed_reply demo_world [CKind true true]) l = [RErr EDecode ""; RErr EHandler "empty"].
 Proof. exact rest_carryover_from_rejected_refuted. Qed.
 Print Assumptions c14_rest_carryover_from_rejected_refuted.
 
@@ -112,7 +112,7 @@ Theorem c14_rest_concurrent_crosstalk_refuted :
   let g := crun pinned demo_world [CKind true true] (start (init_state demo_world) rd)
                 [0; 0; 0; 0; 1; 1; 1; 1; 0; 1] in
   replies g = [Some (ROk 10 (Msg "bob" 2 true "")); Some (ROk 10 (Msg "bob" 2 true ""))] /\
-  map (spec demo_world [CKind true true]) rd =
+  map (fixed_reply demo_world [CKind true true]) rd =
     [ROk 10 (Msg "alice" 1 true ""); ROk 10 (Msg "bob" 2 true "")].
 Proof. exact conc_pinned_refuted. Qed.
 Print Assumptions c14_rest_concurrent_crosstalk_refuted.
@@ -123,7 +123,7 @@ Theorem c14_keep_dead_refuted :
   let l := [wsreq 0 "a"; wsreq 0 "fail-1"; wsreq 0 "a"; wsreq 1 "a"] in
   snd (run pinned demo_world clients (init_state demo_world) l) =
     [ROk 1 (Msg "a" 0 false ""); RErr EHandler "fail-1"; RErr EDeadConn ""; ROk 1 (Msg "a" 0 false "")] /\
-  map (spec demo_world clients) l =
+  map (fixed_reply demo_world clients) l =
     [ROk 1 (Msg "a" 0 false ""); RErr EHandler "fail-1"; ROk 1 (Msg "a" 0 false ""); ROk 1 (Msg "a" 0 false "")].
 Proof. exact keep_dead_refuted. Qed.
 Print Assumptions c14_keep_dead_refuted.
@@ -142,7 +142,7 @@ Print Assumptions c14_pinned_cell_is_merge.
    writes every field its handler reads and no keeping client's request fails. *)
 Theorem c14_pinned_outside_defects : forall w clients l st,
   wf_state w st -> forallb (safe w clients) l = true ->
-  snd (run pinned w clients st l) = map (spec w clients) l.
+  snd (run pinned w clients st l) = map (fixed_reply w clients) l.
 Proof. exact run_pinned_spec_restricted. Qed.
 Print Assumptions c14_pinned_outside_defects.
 
@@ -163,7 +163,7 @@ Print Assumptions c14_check_decides.
 
 Theorem c14_sat_meaning : forall clients cr o,
   sat clients cr o <->
-  let s := spec c14_world clients cr in
+  let s := fixed_reply c14_world clients cr in
   reply_eqb s o = true \/
   (is_ws cr = true /\ is_err s = true /\ exists t', o = RErr EAbnormal t').
 Proof. exact sat_meaning. Qed.
@@ -221,11 +221,11 @@ Proof. exact scen_run_example. Qed.
 Print Assumptions c14_scen_run_satisfiable.
 
 (* Repaired code: the relation accepts the observation in which every request gets
-   spec(request) -- by c14_reply_is_function_of_request the only one any interleaving
+   fixed_reply(request) -- by c14_reply_is_function_of_request the only one any interleaving
    can produce. *)
 Theorem c14_fixed_scenario_ok : forall w clients rounds a,
   List.length (a_cells a) = List.length (w_regs w) -> a_dead a = [] ->
-  scenario_ok all_fixed w clients a rounds (map (map (spec w clients)) rounds) = true.
+  scenario_ok all_fixed w clients a rounds (map (map (fixed_reply w clients)) rounds) = true.
 Proof. exact scenario_ok_fixed_spec. Qed.
 Print Assumptions c14_fixed_scenario_ok.
 
